@@ -56,6 +56,11 @@ MUTS = {
  "c19_int_coerce": ("src/redress/classify.py", "    if isinstance(code, int):", "    if isinstance(code, str) and code.isdigit():\n        code = int(code)\n    if code is not None and int(code) == code:"),
  "c19_sql_28": ("src/redress/extras/sqlstate.py", "    if code.startswith(\"28\"):", "    if code.startswith(\"28\") and code != \"28P01\":"),
  "c19_urllib3_nofallback": ("src/redress/extras/urllib3.py", "return default_classifier(exc)", "return ErrorClass.UNKNOWN"),
+ "c20_revert_fix": ("src/redress/extras/http.py", "    try:\n        return max(0.0, float(seconds))\n    except OverflowError:\n        # integer too large for a float: not a usable hint\n        return None", "    return max(0.0, float(seconds))"),
+ "c20_no_max0": ("src/redress/extras/http.py", "        delta = (parsed - datetime.now(UTC)).total_seconds()\n        return max(0.0, delta)", "        delta = (parsed - datetime.now(UTC)).total_seconds()\n        return delta"),
+ "c20_case_sensitive": ("src/redress/extras/http.py", "            for key, val in headers.items():\n                if str(key).lower() == name.lower():\n                    return str(val)\n            return None\n        except Exception:", "            return None\n        except Exception:"),
+ "c20_jitter_after_cap": ("src/redress/strategies.py", "        if ctx.remaining_s is not None:\n            sleep_s = min(sleep_s, ctx.remaining_s)\n        return sleep_s", "        if ctx.remaining_s is not None and retry_after is None:\n            sleep_s = min(sleep_s, ctx.remaining_s)\n        return sleep_s"),
+ "c20_jitter_sub": ("src/redress/strategies.py", "                sleep_s += random.uniform(0.0, jitter)", "                sleep_s += random.uniform(-jitter, jitter)"),
  "c10_prune_lt": ("src/redress/budget.py", "self._events[0] <= cutoff", "self._events[0] < cutoff"),
  "c10_cap_ge": ("src/redress/budget.py", "if len(self._events) + cost > self.max_retries:", "if len(self._events) + cost >= self.max_retries:"),
 }
